@@ -216,21 +216,29 @@ def _U_definition(f: Func, name: str):
             e = e.args[0]
         else:
             break
-    if not isinstance(e, ast.ListComp) or len(e.generators) != 1:
+    if not isinstance(e, (ast.ListComp, ast.GeneratorExp)):
         return None
-    g = e.generators[0]
-    if not (isinstance(g.iter, ast.Call) and (dotted(g.iter.func) or "").split(".")[-1] == "product" and len(g.iter.args) == 2):
+    if len(e.generators) == 1:
+        g = e.generators[0]
+        if not (isinstance(g.iter, ast.Call) and (dotted(g.iter.func) or "").split(".")[-1] == "product" and len(g.iter.args) == 2):
+            return None
+        if not (isinstance(g.target, ast.Tuple) and len(g.target.elts) == 2 and all(isinstance(x, ast.Name) for x in g.target.elts)):
+            return None
+        t0, t1 = g.target.elts[0].id, g.target.elts[1].id
+        it0, it1 = g.iter.args[0], g.iter.args[1]
+    elif len(e.generators) == 2 and all(isinstance(g.target, ast.Name) and not g.ifs for g in e.generators):
+        # for a in X for b in Y: the same enumeration as product(X, Y)
+        t0, t1 = e.generators[0].target.id, e.generators[1].target.id
+        it0, it1 = e.generators[0].iter, e.generators[1].iter
+    else:
         return None
-    if not (isinstance(g.target, ast.Tuple) and len(g.target.elts) == 2 and all(isinstance(x, ast.Name) for x in g.target.elts)):
-        return None
-    t0, t1 = g.target.elts[0].id, g.target.elts[1].id
     el = e.elt
     if not (isinstance(el, ast.Call) and (dotted(el.func) or "").split(".")[-1] == "vdot" and len(el.args) == 2):
         return None
     a0, a1 = unparse(el.args[0]), unparse(el.args[1])
-    return dict(outer=unparse(g.iter.args[0]), inner=unparse(g.iter.args[1]),
-                conj_side=(g.iter.args[0] if a0 == t0 else g.iter.args[1] if a0 == t1 else None),
-                plain_side=(g.iter.args[0] if a1 == t0 else g.iter.args[1] if a1 == t1 else None))
+    return dict(outer=unparse(it0), inner=unparse(it1),
+                conj_side=(it0 if a0 == t0 else it1 if a0 == t1 else None),
+                plain_side=(it0 if a1 == t0 else it1 if a1 == t1 else None))
 
 
 def _check_basis_change(ctx, rep, f: Func, vector: bool):
@@ -239,11 +247,12 @@ def _check_basis_change(ctx, rep, f: Func, vector: bool):
         rep.undecided("R3", f, "return", "expected one return")
         return
     defs = single_defs(f)
-    # inline everything except the transformation matrix itself
-    e = rets[0].value
-    for _ in range(4):
-        if isinstance(e, ast.Name) and e.id in defs:
-            e = defs[e.id]
+    # the transformation matrix is the local built from the vdot enumeration, whatever it is called; every other
+    # local (U†, intermediate products, the result variable) is inlined
+    u_names = [k for k in defs if _U_definition(f, k) is not None]
+    # keep the outermost such name (a list local and the array built from it both qualify)
+    u_keep = [k for k in u_names if not any(k != o and any(isinstance(x, ast.Name) and x.id == k for x in ast.walk(defs[o])) for o in u_names)]
+    e = inline(f, rets[0].value, defs={k: v for k, v in defs.items() if k not in u_keep})
     p = product(e)
     want_len = 2 if vector else 3
     if len(p) != want_len:
